@@ -3,9 +3,9 @@ from . import lib_client_suites as S
 from . import c13 as _c13
 
 ID = "C08"
-GENERATORS = ["client", "framer_tcpascii"]
+GENERATORS = ["client", "framer_tcpascii", "framer_rtubin", "pdu"]
 PROP_FILE = "C08"
-PROP_FILES = ["C08", "C08_tcp"]
+PROP_FILES = ["C08", "C08_tcp", "C08_rtu", "C08_e2e"]
 CASE_DEPS = S.CASE_DEPS
 RULE = _c13.RULE + ("; C08 judges the same runs by pairing (transaction id on TCP, unit id on serial framings, function code), "
                     "'decoded from bytes delivered during this call', and conformant normal/exception replies for all 20 request types x 8 client kinds")
